@@ -31,6 +31,7 @@ mod c15;
 mod c17;
 mod c18;
 mod fh;
+mod px;
 mod sysop;
 
 use std::env;
@@ -91,6 +92,7 @@ fn run_op(op: &str, seed: u64, n: u64, out: &mut out::Out) {
         "c17" => c17::run(seed, n, out),
         "c18" => c18::run(seed, n, out),
         "fh" => fh::run(seed, n, out),
+        "px" => px::run(seed, n, out),
         "sys" => sysop::run(seed, n, out),
         other => panic!("unknown VERIF_OP {}", other),
     }
